@@ -2018,6 +2018,9 @@ def checked_conversion(gm, f, call):
         vt = (vdecl[0].get('cty') or '').replace('const ', '')
         rt = (call.get('cty') or '').replace('const ', '')
         wide = {'long': 2, 'long long': 2, 'unsigned long': 2, 'unsigned long long': 2, 'int': 1, 'unsigned int': 1, 'short': 0, 'char': 0, 'unsigned char': 0, 'unsigned short': 0}
+        if vt in wide and rt in wide and wide[vt] == wide[rt] and rt.startswith('unsigned') and not vt.startswith('unsigned'):
+            return False, ('%s yields an %s, which is stored in a variable of type %s before the range test: values of half the unsigned range and more (a literal of 19 or 20 digits) '
+                           'become negative and pass the test' % ((call.get('callee') or '?').split('::')[-1], rt, vt))
         if vt in wide and rt in wide and wide[vt] < wide[rt]:
             return False, 'the result of %s (%s) is stored in a variable of type %s before the range test: values of 2^31 and more wrap around and pass the test' % (
                 (call.get('callee') or '?').split('::')[-1], rt, vt)
@@ -2039,6 +2042,14 @@ def checked_conversion(gm, f, call):
                                 if b.id in g.dom[ev.node.id] and (gm.callee(ev.e) in ('GenState::err', 'GenState::verr') or
                                                                  (gm.callee(ev.e).endswith('::push_back') and 'error' in show(ev.e['obj']).lower())):
                                     err = True
+                                    # ... into the caller's state, not into a private copy of it
+                                    tgt_root = field_chain(ev.e['obj'])[0] if ev.e.get('obj') is not None else None
+                                    tgt_root = strip_casts(tgt_root) if tgt_root is not None else None
+                                    if tgt_root is not None and tgt_root.get('k') == 'ref' and tgt_root.get('dk') == 'param':
+                                        pd = [p for p in f['params'] if p['d'] == tgt_root.get('d')]
+                                        if pd and '&' not in (pd[0].get('cty') or '') and '*' not in (pd[0].get('cty') or ''):
+                                            return False, ('the range error is recorded in %s, a by-value copy of the caller\'s state that is destroyed on return: the error is lost and '
+                                                           'the out-of-range literal is accepted' % pd[0]['name'])
                     if bound_ok and err:
                         return True, 'tested %s %s %d, error recorded' % (l['name'], c['op'], lim)
                     if not bound_ok:
